@@ -693,3 +693,27 @@ def result_locals(fn, callees=None, field_suffix=None):
             if field_suffix and v0.get("k") == "mem" and v0.get("f", "").endswith(field_suffix):
                 ids.add(t)
     return ids
+
+
+def step_of(n):
+    """(lvalue node, delta) if n changes an lvalue by a constant step: x++, ++x, x--, x += c, x -= c, x = x + c, x = c + x,
+    x = x - c; else None.  Lets rules recognise a counter update whatever its spelling."""
+    k = n.get("k")
+    if k == "un" and n.get("op") in ("post++", "pre++"):
+        return n["e"], 1
+    if k == "un" and n.get("op") in ("post--", "pre--"):
+        return n["e"], -1
+    if k == "bin" and n.get("op") in ("+=", "-="):
+        c = const_val(n["y"])
+        if c is not None:
+            return n["x"], c if n["op"] == "+=" else -c
+    if k == "bin" and n.get("op") == "=":
+        r = strip_casts(n["y"])
+        if r is not None and r.get("k") == "bin" and r.get("op") in ("+", "-"):
+            lk = key(strip_casts(n["x"]))
+            a, b = strip_casts(r["x"]), strip_casts(r["y"])
+            if key(a) == lk and const_val(b) is not None:
+                return n["x"], const_val(b) if r["op"] == "+" else -const_val(b)
+            if r["op"] == "+" and key(b) == lk and const_val(a) is not None:
+                return n["x"], const_val(a)
+    return None
